@@ -12,29 +12,34 @@ Inductive case :=
 | mk (units : nat) (K : list (list Q)) (bias : list Q) (bs : list bound)
      (pts : list (list (list Q))) (outs : list (list Q))
 | mkP (cfg : lin_cfg) (units : nat) (W : list (list Q)) (bias : option (list Q))
-      (pts : list (list (list Q))) (kern : list (list Q)) (outs : list (list Q)).
+      (pts : list (list (list Q))) (kern : list (list Q)) (outs : list (list Q))
+(* CTol t c: case c compared with relative tolerance t instead of the default
+   1e-9 (float32 layers: 1e-5). *)
+| CTol (t : Q) (c : case).
 Definition tol : Q := 1 # 1000000000.
 
 Definition as_input (units : nat) (pt : list (list Q)) : lin_input :=
   if (units =? 1)%nat then In1 (hd [] pt) else InN pt.
-Fixpoint calls_close (units : nat) (K : list (list Q)) (bias : option (list Q)) (bs : list bound)
+Fixpoint calls_close (tol : Q) (units : nat) (K : list (list Q)) (bias : option (list Q)) (bs : list bound)
          (pts : list (list (list Q))) (outs : list (list Q)) : bool :=
   match pts, outs with
   | [], [] => true
   | p :: pts', o :: outs' =>
       opt_close (qlist_close tol) (linear_call units K bias bs (as_input units p)) (Some o)
-      && calls_close units K bias bs pts' outs'
+      && calls_close tol units K bias bs pts' outs'
   | _, _ => false
   end.
 
-Definition check (c : case) : bool :=
+Fixpoint check_with (tol : Q) (c : case) : bool :=
   match c with
   | mk units K bias bs pts outs =>
       qmat_close tol (map (linear_eval units K bias bs) pts) outs
-      && calls_close units K (Some bias) bs pts outs
+      && calls_close tol units K (Some bias) bs pts outs
   | mkP cfg units W bias pts kern outs =>
       match lin_project qsqrt cfg units W with
-      | Some R => qmat_close tol R kern && calls_close units R bias (layer_bounds cfg (length W)) pts outs
+      | Some R => qmat_close tol R kern && calls_close tol units R bias (layer_bounds cfg (length W)) pts outs
       | None => false
       end
+  | CTol t c' => check_with t c'
   end.
+Definition check (c : case) : bool := check_with tol c.
